@@ -4,6 +4,7 @@ through make (or the reference ninja), every executable is run with an empty
 environment, RUNPATH entries are inspected, the build directory is renamed and
 the executables are run again."""
 import os
+import posixpath
 import re
 import subprocess
 
@@ -90,6 +91,9 @@ def cases(draw):
                      # a two-word link option every consumer must get whole
                      # (`-u <symbol>`: keep an otherwise unreferenced member)
                      'uopt': kind == 'static' and draw(st.booleans()),
+                     # written in C++ (needs the C++ run-time library, which
+                     # only the right link driver adds); its users are C
+                     'cxx': draw(st.integers(0, 3)) == 0,
                      'whole': [d for d in deps if libs[d]['kind'] == 'static'
                                and draw(st.integers(0, 5)) == 0]})
     exes = []
@@ -119,7 +123,10 @@ def cases(draw):
                 [['--enable-shared', '--enable-static'],
                  ['--enable-shared', '--disable-static'],
                  ['--disable-shared', '--enable-static'], []])),
-            'backend': draw(st.sampled_from(['make', 'make', 'ninja']))}
+            'backend': draw(st.sampled_from(['make', 'make', 'ninja'])),
+            # the programs are asked for by name in the fresh build directory
+            # (their libraries are then built as their prerequisites)
+            'by_name_first': draw(st.booleans())}
 
 
 def value(case, i, memo=None):
@@ -168,7 +175,18 @@ def render(case, src):
         body += 'int g_{0} = {1};\nint f_{0}(void) {{ return g_{0}{2}{3}; }}\n' \
             .format(i, i + 1, ''.join(' + h_{}()'.format(d)
                                       for d in hdeps), m)
-        sandbox.write_file(os.path.join(src, 'l{}.c'.format(i)), body)
+        main_src = 'l{}.c'.format(i)
+        if lib.get('cxx') and not lib.get('mopt') and not lib.get('nosrc'):
+            main_src = 'l{}.cpp'.format(i)
+            decls = ''.join('int h_{}(void);\n'.format(d) for d in hdeps)
+            calls_ = ''.join(' + h_{}()'.format(d) for d in hdeps)
+            body = ('#include <string>\nextern "C" {\n' + decls + '}\n' +
+                    'extern "C" int g_{0};\nint g_{0} = {1};\n'.format(
+                        i, i + 1) +
+                    'extern "C" int f_{0}(void) {{ std::string s(3, \'x\'); '
+                    's += "y"; return g_{0} + (int)s.size() - 4{1}; }}\n'
+                    .format(i, calls_))
+        sandbox.write_file(os.path.join(src, main_src), body)
         # a third object nothing in the project's libraries refers to: only
         # a whole-archive link carries it along
         sandbox.write_file(
@@ -194,9 +212,10 @@ def render(case, src):
             L.append("v{0} = {1}({2!r}{3}{4})".format(
                 i, fn, name, ', libs=[{}]'.format(deps), extra))
             continue
-        L.append("v{0} = {1}({2!r}, ['l{0}.c', 'l{0}_b.c', 'l{0}_w.c']{3}{4})"
+        L.append("v{0} = {1}({2!r}, [{5!r}, 'l{0}_b.c', 'l{0}_w.c']{3}{4})"
                  .format(
-            i, fn, name, ', libs=[{}]'.format(deps) if deps else '', extra))
+            i, fn, name, ', libs=[{}]'.format(deps) if deps else '', extra,
+            main_src))
     for j, exe in enumerate(case['exes']):
         body = '#include <stdio.h>\n'
         calls = []
@@ -240,6 +259,11 @@ def prop_link(rec):
             labs.add('two-whole-archives-in-one-link')
         if any(l.get('mopt') for l in libs):
             labs.add('library-link-option')
+        if case.get('by_name_first'):
+            labs.add('programs-built-by-name-first')
+        if any(l.get('cxx') and not l.get('mopt') and not l.get('nosrc')
+               for l in libs):
+            labs.add('c++-library-used-from-c')
         if sum(1 for l in libs if l.get('uopt')) >= 2:
             labs.add('two-word-link-options-from-several-libraries')
         rec.case(labs, nontrivial=(shape(case) if static_with_deps and
@@ -255,6 +279,16 @@ def prop_link(rec):
             if r.rc != 0:
                 raise Violation('link/configure-failed', 'configure failed: '
                                 + r.err.strip()[-700:], case)
+            if case.get('by_name_first'):
+                for j, exe in enumerate(case['exes']):
+                    t = posixpath.join(exe['dir'], 'prog{}'.format(j))
+                    b = sandbox.run_backend(case['backend'], bld, env, [t])
+                    if b.rc != 0:
+                        msg = (b.err + b.out).strip()
+                        raise Violation('link/build-failed/by-name',
+                                        'building {} by name in a fresh '
+                                        'build directory failed: {}'.format(
+                                            t, msg[-900:]), case)
             b = sandbox.run_backend(case['backend'], bld, env, ['all'])
             if b.rc != 0:
                 msg = (b.err + b.out).strip()
